@@ -1711,7 +1711,194 @@ def t17_declared_types():
         ",\n   ".join(f"({lean_str(c)}, ({i[0]}, {b(i[1])}), ({o[0]}, {b(o[1])}))" for c, i, o in rows) + "]\n\nend NirVerif.Generated\n"
     return {"DeclaredTypes.lean": txt}
 
-ITEMS = {"T1": t1_fields, "T2": t2_whitelist, "T3": t3_file_modes, "T4": t4_conv_axis, "T5": t5_flatten, "T6": t6_lif, "T7": t7_cuba, "T8": t8_unique_name, "T9": t9_neuron_shapes, "T10": t10_guards, "T11": t11_dict_overrides, "T12": t12_graph_interface, "T13": t13_write_shape, "T14": t14_worklist, "T15": t15_check_errors, "T16": t16_observer_effects, "T17": t17_declared_types}
+
+# ---------------------------------------------------------------------------------------
+# T18  write_recursive: the dispatch on the value after the metadata branch (C02)
+# ---------------------------------------------------------------------------------------
+def t18_write_dispatch():
+    item = "T18"
+    tree = ast.parse(_src("nir/serialization.py"))
+    fn = _find_func(tree, "write")
+    inner = [n for n in (fn.body if fn else []) if isinstance(n, ast.FunctionDef) and n.name == "write_recursive"]
+    if len(inner) != 1 or len(inner[0].args.args) != 2:
+        raise Refusal(item, "write does not define write_recursive(group, node)")
+    wr = inner[0]
+    p_group = wr.args.args[0].arg
+    loops = [st for st in wr.body if isinstance(st, ast.For)]
+    if len(loops) != 1 or not (isinstance(loops[0].target, ast.Tuple) and len(loops[0].target.elts) == 2
+                               and all(isinstance(e, ast.Name) for e in loops[0].target.elts)):
+        raise Refusal(item, "write_recursive is not one loop `for k, v in …`")
+    k, v = [e.id for e in loops[0].target.elts]
+    ifs = [st for st in loops[0].body if isinstance(st, ast.If)]
+    if not ifs:
+        raise Refusal(item, "no dispatch in the loop body")
+    node = ifs[-1]
+    if not node.orelse:
+        raise Refusal(item, "the dispatch has no branches after the metadata branch")
+    D = ExprT(item, "num", {})
+    rows = []
+
+    def action(body):
+        if len(body) != 1 or not isinstance(body[0], ast.Expr) or not isinstance(body[0].value, ast.Call):
+            raise Refusal(item, "a dispatch branch is not a single call")
+        c = body[0].value
+        if isinstance(c.func, ast.Attribute) and c.func.attr == "create_dataset" and isinstance(c.func.value, ast.Name) \
+                and c.func.value.id == p_group:
+            if len(c.args) != 1 or ast.unparse(c.args[0]) != k:
+                raise Refusal(item, f"create_dataset is not given the key itself: {ast.unparse(c)}")
+            kw = {x.arg: x.value for x in c.keywords}
+            if set(kw) - {"data", "dtype"} or "data" not in kw or ast.unparse(kw["data"]) != v:
+                raise Refusal(item, f"create_dataset is not given the value itself as data: {ast.unparse(c)}")
+            if "dtype" not in kw:
+                return "default"
+            dt = ast.unparse(kw["dtype"])
+            if dt == f"{v}.dtype":
+                return "own_dtype"
+            if dt == "h5py.string_dtype()":
+                return "string"
+            raise Refusal(item, f"unexpected dtype argument: {dt}")
+        if isinstance(c.func, ast.Name) and c.func.id == "write_recursive" and len(c.args) == 2 and not c.keywords \
+                and ast.unparse(c.args[1]) == v and ast.unparse(c.args[0]) in (f"{p_group}.create_group(str({k}))", f"{p_group}.create_group({k})"):
+            return "group"
+        raise Refusal(item, f"unexpected action in the dispatch: {ast.unparse(c)}")
+
+    cur = node.orelse
+    while True:
+        if len(cur) == 1 and isinstance(cur[0], ast.If):
+            t = cur[0].test
+            if not (isinstance(t, ast.Call) and D.dotted(t.func) == "isinstance" and len(t.args) == 2
+                    and isinstance(t.args[0], ast.Name) and t.args[0].id == v):
+                raise Refusal(item, f"a dispatch test is not isinstance(v, …): {ast.unparse(t)}")
+            rows.append((D.dotted(t.args[1]) or ast.unparse(t.args[1]), action(cur[0].body)))
+            if not cur[0].orelse:
+                raise Refusal(item, "the dispatch has no final else")
+            cur = cur[0].orelse
+        else:
+            rows.append(("else", action(cur)))
+            break
+    txt = HEADER + "\nnamespace NirVerif.Generated\n\n" \
+        "/-- the dispatch of `write_recursive` on a value that is not the metadata entry, in source order: the class tested with\n" \
+        "    `isinstance` (`else` for the final branch) and what is created — `string`: `create_dataset(k, data=v,\n" \
+        "    dtype=h5py.string_dtype())`; `own_dtype`: `create_dataset(k, data=v, dtype=v.dtype)`; `group`: a group filled\n" \
+        "    recursively; `default`: `create_dataset(k, data=v)` -/\n" \
+        "def writeDispatch : List (String × String) :=\n  [" + ", ".join(f"({lean_str(a)}, {lean_str(b)})" for a, b in rows) + "]\n\nend NirVerif.Generated\n"
+    return {"WriteDispatch.lean": txt}
+
+
+# ---------------------------------------------------------------------------------------
+# T19  the reader's skeleton: read, hdf2dict, try_byte_to_str, read_version (C04, C01)
+# ---------------------------------------------------------------------------------------
+def t19_read_shape():
+    item = "T19"
+    tree = ast.parse(_src("nir/serialization.py"))
+    D = ExprT(item, "num", {})
+    # try_byte_to_str(a): a.decode(<codec>) if isinstance(a, bytes) else a
+    tb = _find_func(tree, "try_byte_to_str")
+    if tb is None or len(tb.args.args) != 1 or tb.args.defaults:
+        raise Refusal(item, "try_byte_to_str(a) not found")
+    a = tb.args.args[0].arg
+    body = [st for st in tb.body if not (isinstance(st, ast.Expr) and isinstance(st.value, ast.Constant))]
+    ok = len(body) == 1 and isinstance(body[0], ast.Return) and isinstance(body[0].value, ast.IfExp)
+    if ok:
+        e = body[0].value
+        ok = ast.unparse(e.test) == f"isinstance({a}, bytes)" and ast.unparse(e.orelse) == a and isinstance(e.body, ast.Call) \
+            and isinstance(e.body.func, ast.Attribute) and e.body.func.attr == "decode" and ast.unparse(e.body.func.value) == a \
+            and len(e.body.args) == 1 and isinstance(e.body.args[0], ast.Constant) and isinstance(e.body.args[0].value, str) \
+            and not e.body.keywords
+    if not ok:
+        raise Refusal(item, "try_byte_to_str is not `return a.decode(<codec>) if isinstance(a, bytes) else a`")
+    codec = body[0].value.body.args[0].value
+    if tb.decorator_list:
+        raise Refusal(item, "try_byte_to_str is decorated")
+    # hdf2dict(node): ret = {}; nested walker; walker(node, ret); return ret
+    hd = _find_func(tree, "hdf2dict")
+    if hd is None or len(hd.args.args) != 1 or hd.args.defaults or hd.args.kwonlyargs or hd.args.vararg or hd.args.kwarg:
+        raise Refusal(item, "hdf2dict does not take exactly one parameter without default")
+    hp = hd.args.args[0].arg
+    hb = [st for st in hd.body if not (isinstance(st, ast.Expr) and isinstance(st.value, ast.Constant))]
+    ok = len(hb) == 4 and isinstance(hb[0], ast.Assign) and len(hb[0].targets) == 1 and isinstance(hb[0].targets[0], ast.Name) \
+        and isinstance(hb[0].value, ast.Dict) and not hb[0].value.keys and isinstance(hb[1], ast.FunctionDef) \
+        and isinstance(hb[3], ast.Return) and isinstance(hb[3].value, ast.Name) and hb[3].value.id == hb[0].targets[0].id
+    if not ok:
+        raise Refusal(item, "hdf2dict is not `ret = {}; def walker…; walker(node, ret); return ret`")
+    ret = hb[0].targets[0].id
+    wk = hb[1]
+    if ast.unparse(hb[2]) != f"{wk.name}({hp}, {ret})":
+        raise Refusal(item, "hdf2dict does not call its walker on (node, ret)")
+    if len(wk.args.args) != 2 or wk.args.defaults or wk.decorator_list:
+        raise Refusal(item, "the walker does not take (node, data_dict) without defaults")
+    wn, wd = [x.arg for x in wk.args.args]
+    wbody = [st for st in wk.body if not (isinstance(st, ast.Expr) and isinstance(st.value, ast.Constant))]
+    ok = len(wbody) == 1 and isinstance(wbody[0], ast.For) and ast.unparse(wbody[0].iter) == f"{wn}.items()" \
+        and isinstance(wbody[0].target, ast.Tuple) and len(wbody[0].target.elts) == 2 and not wbody[0].orelse
+    if not ok:
+        raise Refusal(item, "the walker is not one loop over node.items()")
+    key, it = [e.id for e in wbody[0].target.elts]
+    lb = wbody[0].body
+    ok = len(lb) == 2 and ast.unparse(lb[0]) == f"{key} = try_byte_to_str({key})" and isinstance(lb[1], ast.If)
+    if not ok:
+        raise Refusal(item, "the loop body is not `key = try_byte_to_str(key)` followed by the Group / Dataset dispatch")
+    g = lb[1]
+    ok = ast.unparse(g.test) == f"isinstance({it}, h5py.Group)" and [ast.unparse(x) for x in g.body] == \
+        [f"{wd}[{key}] = {{}}", f"{wk.name}({it}, {wd}[{key}])"] and len(g.orelse) == 1 and isinstance(g.orelse[0], ast.If)
+    if not ok:
+        raise Refusal(item, "the Group branch is not `data_dict[key] = {}; walker(item, data_dict[key])`")
+    d = g.orelse[0]
+    ok = ast.unparse(d.test) == f"isinstance({it}, h5py.Dataset)" and not d.orelse and \
+        [ast.unparse(x) for x in d.body] in ([f"{it} = try_byte_to_str({it}[()])", f"{wd}[{key}] = {it}"],
+                                              [f"{wd}[{key}] = try_byte_to_str({it}[()])"])
+    if not ok:
+        raise Refusal(item, "the Dataset branch is not `data_dict[key] = try_byte_to_str(item[()])`")
+    # read(filename): with h5py.File(filename, "r") as f: data_dict = hdf2dict(f[<root>]); return nir.dict2NIRNode(data_dict)
+    rd = _find_func(tree, "read")
+    if rd is None or len(rd.args.args) != 1 or rd.args.defaults or rd.decorator_list:
+        raise Refusal(item, "read(filename) not found")
+    rb = [st for st in rd.body if not (isinstance(st, ast.Expr) and isinstance(st.value, ast.Constant))]
+    if len(rb) != 1 or not isinstance(rb[0], ast.With) or not isinstance(rb[0].items[0].optional_vars, ast.Name):
+        raise Refusal(item, "read is not a single with-block")
+    fv = rb[0].items[0].optional_vars.id
+    wb = rb[0].body
+    root = None
+    if len(wb) == 2 and isinstance(wb[0], ast.Assign) and isinstance(wb[1], ast.Return):
+        tgt = ast.unparse(wb[0].targets[0])
+        call = wb[0].value
+        if isinstance(call, ast.Call) and D.dotted(call.func) == "hdf2dict" and len(call.args) == 1 and not call.keywords \
+                and isinstance(call.args[0], ast.Subscript) and ast.unparse(call.args[0].value) == fv \
+                and isinstance(call.args[0].slice, ast.Constant) and ast.unparse(wb[1].value) == f"nir.dict2NIRNode({tgt})":
+            root = call.args[0].slice.value
+    elif len(wb) == 1 and isinstance(wb[0], ast.Return):
+        c = wb[0].value
+        if isinstance(c, ast.Call) and D.dotted(c.func) == "nir.dict2NIRNode" and len(c.args) == 1 and isinstance(c.args[0], ast.Call) \
+                and D.dotted(c.args[0].func) == "hdf2dict" and isinstance(c.args[0].args[0], ast.Subscript) \
+                and ast.unparse(c.args[0].args[0].value) == fv and isinstance(c.args[0].args[0].slice, ast.Constant):
+            root = c.args[0].args[0].slice.value
+    if not isinstance(root, str):
+        raise Refusal(item, "read is not `nir.dict2NIRNode(hdf2dict(f[<root>]))`")
+    # read_version: f[<name>][()].decode(<codec>)
+    rv = _find_func(tree, "read_version")
+    vname = vcodec = None
+    if rv is not None:
+        for n in ast.walk(rv):
+            if isinstance(n, ast.Return) and isinstance(n.value, ast.Call) and isinstance(n.value.func, ast.Attribute) \
+                    and n.value.func.attr == "decode" and len(n.value.args) == 1 and isinstance(n.value.args[0], ast.Constant):
+                inner = n.value.func.value
+                if isinstance(inner, ast.Subscript) and ast.unparse(inner.slice) == "()" and isinstance(inner.value, ast.Subscript) \
+                        and isinstance(inner.value.slice, ast.Constant):
+                    vname, vcodec = inner.value.slice.value, n.value.args[0].value
+    if not isinstance(vname, str):
+        raise Refusal(item, "read_version is not `return f[<name>][()].decode(<codec>)`")
+    txt = HEADER + "\nnamespace NirVerif.Generated\n\n" \
+        "/-- the reader as the source states it: `read` hands `hdf2dict(f[readRootName])` to `dict2NIRNode`; `hdf2dict` starts from a\n" \
+        "    fresh dictionary on every call and walks `items()`: every key through `try_byte_to_str`, a group into a fresh\n" \
+        "    dictionary filled recursively, a dataset as `try_byte_to_str(item[()])`; `try_byte_to_str` decodes `bytes` with\n" \
+        "    `readCodec` and returns everything else unchanged; `read_version` decodes `f[versionName][()]` with `versionCodec` -/\n" \
+        f"def readRootName : String := {lean_str(root)}\ndef readCodec : String := {lean_str(codec)}\n" \
+        f"def versionName : String := {lean_str(vname)}\ndef versionCodec : String := {lean_str(vcodec)}\n" \
+        "/-- the structural facts checked by the translator (it refuses otherwise) -/\n" \
+        "def readerFreshDictPerCall : Bool := true\ndef readerDecodesKeys : Bool := true\ndef readerLoadsWholeDataset : Bool := true\n\nend NirVerif.Generated\n"
+    return {"ReadShape.lean": txt}
+
+ITEMS = {"T1": t1_fields, "T2": t2_whitelist, "T3": t3_file_modes, "T4": t4_conv_axis, "T5": t5_flatten, "T6": t6_lif, "T7": t7_cuba, "T8": t8_unique_name, "T9": t9_neuron_shapes, "T10": t10_guards, "T11": t11_dict_overrides, "T12": t12_graph_interface, "T13": t13_write_shape, "T14": t14_worklist, "T15": t15_check_errors, "T16": t16_observer_effects, "T17": t17_declared_types, "T18": t18_write_dispatch, "T19": t19_read_shape}
 
 
 def regenerate(out_dir=OUT, items=None):
